@@ -57,11 +57,12 @@ func c29Menu() []rollerID {
 	rnd := tls.ClientHelloID{Client: tls.HelloRandomizedALPN.Client, Version: tls.HelloRandomizedALPN.Version, Seed: c29RandSeed}
 	// a second pinned randomized fingerprint: same client/version, other seed
 	rnd2 := tls.ClientHelloID{Client: rnd.Client, Version: rnd.Version, Seed: c29RandSeed2}
-	return []rollerID{mk("HelloChrome_100"), mk("HelloChrome_120"), mk("HelloFirefox_120"), mk("HelloIOS_14"), {c29IDName(rnd), rnd}, {c29IDName(rnd2), rnd2}}
+	// (HelloGolang: the one id whose hello is built from the Config the attempt is given, not from a spec)
+	return []rollerID{mk("HelloChrome_100"), mk("HelloChrome_120"), mk("HelloFirefox_120"), mk("HelloIOS_14"), {c29IDName(rnd), rnd}, {c29IDName(rnd2), rnd2}, mk("HelloGolang")}
 }
 
 // lists of configured IDs (indices into the menu). Two entries share the client name "Chrome".
-var c29Lists = [][]int{{0, 1, 2}, {1, 2, 3, 4}, {2, 4, 5}}
+var c29Lists = [][]int{{0, 1, 2}, {1, 2, 3, 4}, {2, 4, 5}, {0, 6, 2}}
 
 type rollerAttempt struct {
 	caller string
@@ -1087,7 +1088,7 @@ func init() {
 		Init:          func(verifDir string) { c29Trust(verifDir) },
 		RaceScenarios: func(thorough bool) []*explore.Scenario { return []*explore.Scenario{c29Concurrent(0, true)} },
 		Run: func(c *explore.Check, thorough bool) {
-			c.Rule = "real Roller; net.DialTimeout redirected to in-memory connections to a standard-library TLS server that recognises each fingerprint and accepts a chosen subset. (1) explicit-state: the Roller's only state is WorkingHelloID, so every state {none, each configured id, an id no longer configured} — reached through the public API by a prefix Dial, or (each configured id) set by the caller as a pointer into its own list — x id lists {3 ids two of which share the client name, 4 ids incl. a seeded randomized one, 3 ids two of which are randomized ids differing only in their seed} x every acceptance subset x every attempt order the shuffle can produce (quick: 6 of 24 for the 4-id list) x dial failure at every position is executed, followed by one more Dial from the reached state; unseeded randomized ids (3 kinds x 6 shuffle seeds x 3 second servers): after one of their fresh fingerprints worked, WorkingHelloID carries its seed and the next Dial leads with exactly that fingerprint; a list holding a pinned and the unseeded id of one client (12 shuffle seeds): both stay separate entries, each tried once; one fingerprint stalled (its server reads the ClientHello and then stays silent; deadlines and a virtual clock are modelled in the in-memory transport: the attempt ends at its deadline) x each id of each list x every acceptance subset x 4 shuffle seeds: the other ids are still tried, each with its own handshake timeout; (2) two concurrent Dials on one Roller under the controlled scheduler, all schedules with <= 1 (2) preemptions/free switches, x 4 acceptance sets x {no working id, one}. Oracle (reference Roller): first attempt is the working id if any, no id twice, only configured ids (plus the working one), stops at the first accepted attempt and returns that connection (complete, same id, a Write on it succeeds, SNI = server name on every attempt), records it; a dial error is returned at once; failure leaves WorkingHelloID alone and tries every id; Roller.HelloIDs is never changed; concurrent: no deadlock/panic, each call explainable by the initial or the other call's working id, final WorkingHelloID is one of the successes. distinct = outcome class"
+			c.Rule = "real Roller; net.DialTimeout redirected to in-memory connections to a standard-library TLS server that recognises each fingerprint and accepts a chosen subset. (1) explicit-state: the Roller's only state is WorkingHelloID, so every state {none, each configured id, an id no longer configured} — reached through the public API by a prefix Dial, or (each configured id) set by the caller as a pointer into its own list — x id lists {3 ids two of which share the client name, 4 ids incl. a seeded randomized one, 3 ids two of which are randomized ids differing only in their seed, 3 ids one of which is HelloGolang (built from the attempt's own Config)} x every acceptance subset x every attempt order the shuffle can produce (quick: 6 of 24 for the 4-id list) x dial failure at every position is executed, followed by one more Dial from the reached state; unseeded randomized ids (3 kinds x 6 shuffle seeds x 3 second servers): after one of their fresh fingerprints worked, WorkingHelloID carries its seed and the next Dial leads with exactly that fingerprint; a list holding a pinned and the unseeded id of one client (12 shuffle seeds): both stay separate entries, each tried once; one fingerprint stalled (its server reads the ClientHello and then stays silent; deadlines and a virtual clock are modelled in the in-memory transport: the attempt ends at its deadline) x each id of each list x every acceptance subset x 4 shuffle seeds: the other ids are still tried, each with its own handshake timeout; (2) two concurrent Dials on one Roller under the controlled scheduler, all schedules with <= 1 (2) preemptions/free switches, x 4 acceptance sets x {no working id, one}. Oracle (reference Roller): first attempt is the working id if any, no id twice, only configured ids (plus the working one), stops at the first accepted attempt and returns that connection (complete, same id, a Write on it succeeds, SNI = server name on every attempt), records it; a dial error is returned at once; failure leaves WorkingHelloID alone and tries every id; Roller.HelloIDs is never changed; concurrent: no deadlock/panic, each call explainable by the initial or the other call's working id, final WorkingHelloID is one of the successes. distinct = outcome class"
 			c.Assumptions = []string{"shuffle decisions are driven by replacing the Roller's private prng with seeded ones (in-package helper); one seed per reachable attempt order", "fingerprints are recognised from the server's ClientHelloInfo (suites, extension set, groups, versions, ALPN; GREASE ignored); the menu's signatures are checked to be pairwise distinct", "trust via SSL_CERT_FILE and the real clock (certificate valid 2021-2036)"}
 			runAll(c, c29Scenarios(thorough), 0)
 			attachRacePass(c)
